@@ -71,6 +71,39 @@ Definition model_outcome (tb : lock_table) (c : c03_case) (order : list (nat * n
   | None => None
   end.
 
+(* how often the model calls on_miss in that run: a lookup calls it exactly when the key is absent
+   (read off the dict storage, which holds the same keys as the link table in every state the
+   sequential model reaches) and on_miss is configured *)
+Definition m_calls (cf : config) (s : shared) (o : op) : nat :=
+  match o with
+  | GetItem k | Get k _ | SetDefault k _ =>
+      match d_get (store s) k, cf_miss cf with
+      | None, Some _ => 1
+      | _, _ => 0
+      end
+  | _ => 0
+  end.
+
+Fixpoint model_order_calls (tb : lock_table) (cf : config) (s : shared) (ths : list mthread)
+         (order : list (nat * nat)) : nat :=
+  match order with
+  | [] => 0
+  | (t, i) :: rest =>
+      match nth_error ths t with
+      | Some (o :: todo, done) =>
+          if Nat.eqb i (length done) then
+            let '(s', r) := run_op tb cf s o in
+            m_calls cf s o + model_order_calls tb cf s' (nth_upd ths t (fun _ => (todo, done ++ [r]))) rest
+          else 0
+      | _ => 0
+      end
+  end.
+
+Definition model_calls (tb : lock_table) (c : c03_case) (order : list (nat * nat)) : nat :=
+  let cf := case_cfg c in
+  model_order_calls tb cf (run_ops tb cf shared_init (init_ops (ca_init c)))
+                    (map (fun p => (p, [])) (ca_progs c)) order.
+
 Definition status_eqb (a b : run_status) : bool :=
   match a, b with Done, Done | Deadlock, Deadlock | Hang, Hang => true | _, _ => false end.
 
@@ -85,7 +118,7 @@ Definition outcome_eqb (a b : outcome) : bool :=
 
 Definition run_agree (c : c03_case) (r : c03_run) : bool :=
   match model_outcome gen_table c (ru_order r) with
-  | Some o => outcome_eqb o (ru_out r)
+  | Some o => outcome_eqb o (ru_out r) && Nat.eqb (model_calls gen_table c (ru_order r)) (ru_calls r)
   | None => false
   end.
 
